@@ -49,6 +49,7 @@ package dkv
 //@   checks result == nil && latestCP != nil ==> db.seqNum >= latestCP.Levels.LatestSeqNum
 //@   loop 0:
 //@     invariant db.seqNum >= latestCP.Levels.LatestSeqNum
+//@     step db.dataOwnership.OwnsKey(entry.K) ==> (entry.Deleted && called(Delete)) || (!entry.Deleted && called(Put))
 
 // Get and ScanPrefix read two shared structures in two separate critical sections: the memtable
 // list (List.tablesMu) and the level list (db.mu). A flush moves the records of a sealed memtable
@@ -136,6 +137,16 @@ package dkv
 // task both replace db.sstables, under db.mu, by applying their change set to the layout that
 // is current AT THAT MOMENT - never to the snapshot the compaction step was computed from, which
 // would drop level-0 tables flushed in the meantime.
+// Flushes run one after the other on the flush queue, compactions one after the other on the
+// compaction queue (two compactions of overlapping inputs running side by side would both be
+// applied: the older output lands beside the newer one - C18); nothing is started unqueued.
+//@ func DB.rotateMemtable
+//@   property C18 C07
+//@   nosafety
+//@   atcall Enqueue: arg0 == flushMemTablesQueue
+//@   atcall Go: false
+//@   atcall go: false
+
 //@ func DB.rotateMemtable$0
 //@   property C18 C07
 //@   nosafety
@@ -143,6 +154,8 @@ package dkv
 //@   atcall NewWithChangeSet: held(db.mu)
 //@   atcall Dequeue: held(db.mu)
 //@   order Dequeue after NewWithChangeSet
+//@   atcall Enqueue: arg0 == compactionQueue
+//@   atcall Go: false
 
 //@ func DB.rotateMemtable$1
 //@   property C18
